@@ -6,6 +6,10 @@
 // produces codes / access tokens of the hostile value classes and a storage that implements
 // AuthRequestSessionState and fails with generated errors.
 //
+// A third front replays the same two entry points as mini-histories: ONE *oidc.Error value (a package-level sentinel
+// of a storage) answers 2-3 consecutive requests of a case - the first with a session state and a distinctive state,
+// the later ones without the interface / with an empty or different state - and every response is judged on its own.
+//
 // Every answer is decoded the way a user agent hands it to the client: the query of the Location, the raw text
 // after the first "#" of the Location parsed as a form, or the auto-submitting page parsed with an HTML5 parser;
 // the oracle compares each decoded value with the value that was produced / sent, checks that the query parameters
@@ -21,22 +25,39 @@ func main() {
 	run.SetRule("a case is non-trivial when a response was delivered (3xx with Location, or a 200 page with a form) and decoded; distinct = distinct vectors " +
 		"(front, builder function | router+scenario, response kind / type, response_mode asked, redirect URI shape, client kind, value class of state, of session_state, of the main value (code / token / error_description) or Crypto class, fault method/kind, delivered channel)")
 	run.Assume(
+		"a storage may answer several requests with one and the same *oidc.Error value (sentinel); every response must carry exactly the state / session_state of the request being answered",
 		"equality is judged for values that are valid UTF-8 without NUL and without C0 controls other than TAB; other values are still sent and judged structurally (no panic, one form, no break-out, no injected parameter)",
 		"a redirect URI whose own query has a parameter named like a response parameter is excluded (the collision is the RP's own)",
 		"which response mode carries a response is not judged (errors of a form_post request are delivered by redirect in this library; counted as grey); only what arrives is compared",
 		"token_type, expires_in, scope and refresh_token are not named by the statement: their loss or change is counted as grey",
 		"user agent = WHATWG form-urlencoded parsing of query / raw fragment and golang.org/x/net/html for the page; parser differentials to real browsers are out of reach",
 	)
-	run.Mandatory(
-		"builder:AuthResponseURL", "builder:AuthResponseFormPost", "builder:AuthRequestError", "builder:TryErrorRedirect",
-		"e2e:success:provider:query", "e2e:success:provider:fragment", "e2e:success:provider:form_post",
-		"e2e:success:legacy:query", "e2e:success:legacy:fragment", "e2e:success:legacy:form_post",
-		"e2e:error-redirect:provider", "e2e:error-redirect:legacy",
-		"intact:builder:query", "intact:e2e:query",
-	)
+	if run.ReplayCase() < 0 { // a replayed single case is judged on its own
+		run.Mandatory(
+			"builder:AuthResponseURL", "builder:AuthResponseFormPost", "builder:AuthRequestError", "builder:TryErrorRedirect",
+			"e2e:success:provider:query", "e2e:success:provider:fragment", "e2e:success:provider:form_post",
+			"e2e:success:legacy:query", "e2e:success:legacy:fragment", "e2e:success:legacy:form_post",
+			"e2e:error-redirect:provider", "e2e:error-redirect:legacy",
+			"intact:builder:query", "intact:e2e:query",
+			"sentinel-reuse:second-request-judged", "sentinel-reuse:second-request-judged:builder:AuthRequestError", "sentinel-reuse:second-request-judged:builder:TryErrorRedirect",
+			"sentinel-reuse:second-request-judged:e2e:provider", "sentinel-reuse:second-request-judged:e2e:legacy",
+		)
+	}
 	nb := run.N(50000, 1000000)
 	ne := run.N(5000, 100000)
+	nsb := run.N(6000, 120000)
+	nse := run.N(1500, 30000)
 	if rc := run.ReplayCase(); rc >= 0 {
+		if rc >= sentinelBase {
+			k := rc - sentinelBase
+			if k%2 == 0 {
+				sentinelBuilderCase(run, int(k/2))
+			} else {
+				sentinelE2ECase(run, int(k/2), 0)
+				sentinelE2ECase(run, int(k/2), 1)
+			}
+			run.Finish()
+		}
 		if rc%2 == 0 {
 			builderCase(run, int(rc/2))
 		} else {
@@ -49,6 +70,11 @@ func main() {
 		e2eCase(run, j, 0)
 		e2eCase(run, j, 1)
 	})
+	ev.Parallel(nse, 0, func(_ int, j int) {
+		sentinelE2ECase(run, j, 0)
+		sentinelE2ECase(run, j, 1)
+	})
+	ev.Parallel(nsb, 0, func(_ int, i int) { sentinelBuilderCase(run, i) })
 	ev.Parallel(nb, 0, func(_ int, i int) { builderCase(run, i) })
 	run.Finish()
 }
